@@ -1008,6 +1008,8 @@ mod pipeline {
             assert!(self.cmds.len() >= 2);
 
             let (err_read, err_write) = crate::popen::make_pipe()?;
+            // the read end stays in the parent, the commands must not inherit it
+            crate::popen::set_inheritable(&err_read, false)?;
             self = self.stderr_to(err_write);
 
             let stdin_data = self.stdin_data.take();
